@@ -248,6 +248,7 @@ void h_ckpt_take_restore(void)
 	VIN_ARR(unsigned char, junk_mem, B_TOTAL);
 	VIN(bool, grow);
 	VASSUME(b_wf_lon(junk_lon)); /* whatever the undone events did, they left a well-formed tree */
+	VASSUME(n_ar <= 1);          /* one arena at checkpoint time; a second one may be created afterwards */
 	bool g_live = GHOST_LIVE();
 	uint8_t g_lon = ga < n_ar ? arena_pool[ga].longest[gn] : 0;
 	unsigned char g_byte = ga < n_ar ? arena_pool[ga].base_mem[gx] : 0;
